@@ -15,6 +15,7 @@ from vlib.c03_export import OP1, OP2, zl
 PROOF_FILES = ["C01V/VExpr.v", "C01V/VExprProofs.v", "C01V/PropsVExpr.v"]
 DEPS = ["C03/LIR.v", "C03/ArithSpec.v", "C03/WordArith.v", "C03/TypeLemmas.v", "C03/ArithModel.v", "C03/LegacyExact.v", "C03/VSL.v",
         "C03/VenomExact.v", "C01/ExprCompile.v", "C01/ExprCompileProofs.v"]
+FULL_FILES = ["C01V/VBlocks.v", "C01V/VBlocksProofs.v", "C01V/PropsVExprFull.v"]
 IMPORTS = ("From Coq Require Import String.\nFrom Verif Require Import Base.Word256 C03.LIR C03.ArithSpec C03.VSL C01.ExprCompile "
            "C01V.VExpr.\nOpen Scope string_scope.\nOpen Scope Z_scope.\n")
 
@@ -301,6 +302,16 @@ def part_vexpr(ctx, deps=None):
     if not b["ok"]:
         ctx.violation("theorem-broken", f"{b.get('failed_lemma')} in {b['file']}",
                       {"theorem": b.get("failed_lemma"), "file": b["file"], "coq_output": b["out"][-1500:]})
+    # the full theorem (and / or / if-expressions): separate files, used only when they are present and build
+    import os
+    full = all(os.path.exists(str(coqrun.COQ / f)) for f in FULL_FILES)
+    if full and b["ok"]:
+        bf = ctx.coq_build_cached(FULL_FILES, deps=(list(deps) if deps is not None else DEPS) + PROOF_FILES, timeout=900)
+        if not bf["ok"]:
+            full = False
+            ctx.violation("theorem-broken", f"{bf.get('failed_lemma')} in {bf['file']}",
+                          {"theorem": bf.get("failed_lemma"), "file": bf["file"], "coq_output": bf["out"][-1500:]})
+    stats["full_theorem_files"] = bool(full and b["ok"])
     rng = ctx.rng("vexpr")
     want = 150 if ctx.tier == "quick" else 1200
     samples, kinds, tries = [], {}, 0
@@ -324,9 +335,11 @@ def part_vexpr(ctx, deps=None):
     stats["multi_block"] = sum(1 for s in samples if s["nblocks"] > 1)
     stats["node_kinds"] = kinds
     if samples and b["ok"]:
-        exprs = [f"[if vtie_ok {s['coq_e']} {s['coq_r']} {s['coq_b']} then 1 else 0]" for s in samples]
+        tie = "vtie2_ok" if stats["full_theorem_files"] else "vtie_ok"
+        imports = IMPORTS.replace("C01V.VExpr.", "C01V.VExpr C01V.VBlocks.") if stats["full_theorem_files"] else IMPORTS
+        exprs = [f"[if {tie} {s['coq_e']} {s['coq_r']} {s['coq_b']} then 1 else 0]" for s in samples]
         try:
-            res = coqrun.eval_zlists(IMPORTS, exprs, "c01vexpr", shard=max(1, len(exprs) // 6), timeout=600)
+            res = coqrun.eval_zlists(imports, exprs, "c01vexpr", shard=max(1, len(exprs) // 6), timeout=600)
         except RuntimeError as ex:
             res = None
             ctx.violation("correspondence-broken", "the expression tie could not be evaluated in Coq", {"error": str(ex)[-1500:]})
